@@ -11,10 +11,13 @@ namespace Grammar
 
 /-! ### rfc2087 -/
 
-def quotaResourceName : Parser QuotaResourceName :=
-  alt (map (tagNoCase (b!"STORAGE")) fun _ => QuotaResourceName.storage) <|
-  alt (map (tagNoCase (b!"MESSAGE")) fun _ => QuotaResourceName.message) <|
-  map astringUtf8 QuotaResourceName.atom
+/-- classify the complete name -/
+def classifyQuotaResource (name : Bytes) : QuotaResourceName :=
+  if eqIgnoreAsciiCase name (b!"STORAGE") then .storage
+  else if eqIgnoreAsciiCase name (b!"MESSAGE") then .message
+  else .atom name
+
+def quotaResourceName : Parser QuotaResourceName := map astringUtf8 classifyQuotaResource
 
 def quotaResource : Parser QuotaResource := do
   let name ← quotaResourceName
@@ -280,7 +283,7 @@ def entryList : Parser (List Bytes) := sepList0 (tag (b!" ")) (mapRes entryName 
 
 def metadataCommon : Parser Bytes := do
   tagNoCase (b!"METADATA ")
-  let mbox ← quotedUtf8
+  let mbox ← mailbox
   tag (b!" ")
   pure mbox
 
